@@ -62,9 +62,19 @@ pub struct RefHealth {
     /// per watch: (generation, set of possible 'next unreported history index' values — a set
     /// because equal statuses make the matching of a report to a history entry ambiguous)
     watches: Vec<Option<(usize, Vec<usize>)>>,
+    /// per watch: the value it reported last
+    last_value: Vec<Option<i32>>,
 }
 
 impl RefHealth {
+    /// Generation a watch is bound to.
+    pub fn watch_gen(&self, w: usize) -> Option<usize> {
+        self.watches.get(w).and_then(|x| x.as_ref()).map(|(g, _)| *g)
+    }
+    /// Current generation of a service.
+    pub fn current_gen(&self, s: usize) -> Option<usize> {
+        self.current[s]
+    }
     pub fn new() -> Self {
         let mut r = RefHealth::default();
         r.gens.push((vec![1], false)); // "" is SERVING by default
@@ -105,10 +115,12 @@ impl RefHealth {
                     // first report: the status current at subscription (or, for a lazily polled
                     // in-process stream, any later one)
                     self.watches.push(Some((g, vec![self.gens[g].0.len() - 1])));
+                    self.last_value.push(None);
                     expect(observed, &Ret::WatchOk)
                 }
                 None => {
                     self.watches.push(None);
+                    self.last_value.push(None);
                     expect(observed, &Ret::NotFound)
                 }
             },
@@ -132,11 +144,16 @@ impl RefHealth {
                             Err(format!("watch reported {v}, which was not set for that service after what it had already reported (history {hist:?}, possible next unreported indices {los:?})"))
                         } else {
                             self.watches[*w] = Some((g, next));
+                            self.last_value[*w] = Some(*v);
                             Ok(())
                         }
                     }
                     Ret::Pending => {
-                        if !los.contains(&hist.len()) {
+                        // nothing unreported, or the latest status equals what was reported last
+                        // (an implementation may suppress a repeated status: the watcher already
+                        // knows the latest status)
+                        let up_to_date = los.contains(&hist.len()) || self.last_value[*w] == hist.last().copied();
+                        if !up_to_date {
                             Err(format!("watch is Pending although the latest status {} (history {hist:?}) has not been reported", hist[hist.len() - 1]))
                         } else if *closed {
                             Err("watch is Pending although its service was cleared and everything was reported: it must end".into())
@@ -148,7 +165,7 @@ impl RefHealth {
                     Ret::End => {
                         if !*closed {
                             Err("watch stream ended although its service is still registered".into())
-                        } else if !los.contains(&hist.len()) {
+                        } else if !(los.contains(&hist.len()) || self.last_value[*w] == hist.last().copied()) {
                             Err(format!("watch stream ended without reporting the latest status {} set before the clear (history {hist:?})", hist[hist.len() - 1]))
                         } else {
                             self.watches[*w] = Some((g, vec![hist.len()]));
@@ -189,6 +206,28 @@ fn status_ret(r: Result<tonic::Response<HealthCheckResponse>, tonic::Status>) ->
         Ok(resp) => Ret::Status(resp.get_ref().status),
         Err(e) if e.code() == tonic::Code::NotFound => Ret::NotFound,
         Err(e) => Ret::OtherErr(crate::env::fmt_status(&e)),
+    }
+}
+
+/// Waker that counts how often it was woken (a parked task would be rescheduled by it).
+pub struct CountWaker(pub std::sync::atomic::AtomicU64);
+impl std::task::Wake for CountWaker {
+    fn wake(self: std::sync::Arc<Self>) {
+        self.0.fetch_add(1, std::sync::atomic::Ordering::SeqCst);
+    }
+    fn wake_by_ref(self: &std::sync::Arc<Self>) {
+        self.0.fetch_add(1, std::sync::atomic::Ordering::SeqCst);
+    }
+}
+
+fn poll_watch_with(w: &mut tonic::Streaming<HealthCheckResponse>, waker: &std::sync::Arc<CountWaker>) -> Ret {
+    let wk: Waker = waker.clone().into();
+    let mut cx = Context::from_waker(&wk);
+    match Pin::new(w).poll_next(&mut cx) {
+        Poll::Pending => Ret::Pending,
+        Poll::Ready(None) => Ret::End,
+        Poll::Ready(Some(Ok(r))) => Ret::Status(r.status),
+        Poll::Ready(Some(Err(e))) => Ret::OtherErr(crate::env::fmt_status(&e)),
     }
 }
 
@@ -245,6 +284,9 @@ fn hist_body(c: &HistCase, ch: &Chooser) -> Outcome {
     let mut watches: Vec<Option<tonic::Streaming<HealthCheckResponse>>> = vec![];
     let mut trace: Vec<(Op, Ret)> = vec![];
     let mut o = Outcome::new("");
+    // per watch: its waker, and the wake count recorded when its last poll answered Pending
+    let mut wakers: Vec<std::sync::Arc<CountWaker>> = vec![];
+    let mut parked_at: Vec<Option<u64>> = vec![];
     for d in 0..c.depth {
         let live: Vec<bool> = watches.iter().map(|w| w.is_some()).collect();
         let m = menu(&live, watches.len());
@@ -258,14 +300,22 @@ fn hist_body(c: &HistCase, ch: &Chooser) -> Outcome {
             Op::Watch(s) => spin_block_on(client.watch(HealthCheckRequest { service: svc_name(*s).into() }), 10_000).map(|r| match r {
                 Ok(resp) => {
                     watches.push(Some(resp.into_inner()));
+                    wakers.push(std::sync::Arc::new(CountWaker(std::sync::atomic::AtomicU64::new(0))));
+                    parked_at.push(None);
                     Ret::WatchOk
                 }
                 Err(e) => {
                     watches.push(None);
+                    wakers.push(std::sync::Arc::new(CountWaker(std::sync::atomic::AtomicU64::new(0))));
+                    parked_at.push(None);
                     if e.code() == tonic::Code::NotFound { Ret::NotFound } else { Ret::OtherErr(crate::env::fmt_status(&e)) }
                 }
             }),
-            Op::Next(w) => Ok(poll_watch(watches[*w].as_mut().unwrap())),
+            Op::Next(w) => {
+                let r = poll_watch_with(watches[*w].as_mut().unwrap(), &wakers[*w]);
+                parked_at[*w] = if r == Ret::Pending { Some(wakers[*w].0.load(std::sync::atomic::Ordering::SeqCst)) } else { None };
+                Ok(r)
+            }
             Op::Drop(w) => {
                 watches[*w] = None;
                 Ok(Ret::Unit)
@@ -278,6 +328,19 @@ fn hist_body(c: &HistCase, ch: &Chooser) -> Outcome {
                 break;
             }
         };
+        // a watcher parked on Pending must be woken by an update or clear of its registration
+        if let Op::Set(s, _) | Op::Clear(s) = &op {
+            let target = model.current_gen(*s);
+            for w in 0..watches.len() {
+                if watches[w].is_some() && target.is_some() && model.watch_gen(w) == target {
+                    if let Some(at) = parked_at[w] {
+                        if wakers[w].0.load(std::sync::atomic::Ordering::SeqCst) == at {
+                            o.violate("watch-lost-wakeup", format!("after {trace:?}: {op:?} changed the registration watch #{w} is parked on (its last poll was Pending) but its waker was never called: a task awaiting the stream would sleep forever"));
+                        }
+                    }
+                }
+            }
+        }
         let verdict = model.step(&op, &ret);
         trace.push((op.clone(), ret.clone()));
         if let Err(why) = verdict {
@@ -514,7 +577,7 @@ pub fn property(tier: Tier) -> Property {
     let hist = Section::new(
         "histories",
         Config::default(),
-        "cases: every operation sequence of depth 5 (thorough 6) over {set(service in {'', a}, status in 3), clear(service), check(service or a never-set name), watch(service) (<= 2 watches), next(w) = one non-blocking poll of a live watch, drop(w)} (choices cost nothing; one case per first operation), driven through the generated HealthClient wired in-process to health_reporter()'s HealthServer with no runtime; RefHealth is stepped in lock-step on every operation: check == latest (NOT_FOUND when unset/cleared/never set); a watch's reports form an order-preserving subsequence of the statuses set for its registration from the subscription on, Pending only when nothing is unreported and the service is still registered, end only after a clear and after the unreported latest status; never a status that was not set. Non-trivial = the sequence polls a watch and contains an update or clear.",
+        "cases: every operation sequence of depth 5 (thorough 6) over {set(service in {'', a}, status in 3), clear(service), check(service or a never-set name), watch(service) (<= 2 watches), next(w) = one non-blocking poll of a live watch, drop(w)} (choices cost nothing; one case per first operation), driven through the generated HealthClient wired in-process to health_reporter()'s HealthServer with no runtime; RefHealth is stepped in lock-step on every operation: check == latest (NOT_FOUND when unset/cleared/never set); a watch's reports form an order-preserving subsequence of the statuses set for its registration from the subscription on, Pending only when nothing is unreported (or the latest status equals the one reported last) and the service is still registered, end only after a clear and after the unreported latest status; never a status that was not set; every watch is polled with its own counting waker and a watcher whose last poll was Pending must have been woken by the next update/clear of its registration (no lost wake-up). Non-trivial = the sequence polls a watch and contains an update or clear.",
         hcases,
         |c: &HistCase| format!("depth={} first={:?}", c.depth, c.first),
         hist_body,
